@@ -268,6 +268,7 @@ fn digest_json(ctx: &Context) -> J {
 impl Server {
     fn handle(&mut self, req: &J) -> J {
         let op = req.get("op").and_then(|v| v.as_str()).unwrap_or("");
+        out::SHARING.with(|s| s.set(req.get("sharing").and_then(|v| v.as_bool()).unwrap_or(false)));
         match op {
             "ping" => json!({"ok": true}),
             "batch" => {
@@ -361,6 +362,7 @@ impl Server {
             "history_save" => self.with_session(req, op_history_save),
             "listcheck" => listcheck::op_listcheck(req),
             "listrun" => listcheck::op_listrun(req),
+            "listfuzz" => listcheck::op_listfuzz(req),
             _ => json!({"ok": false, "harness_error": format!("unknown op {op}")}),
         }
     }
@@ -684,6 +686,11 @@ fn serve() {
 }
 
 fn main() {
+    let argv: Vec<String> = std::env::args().collect();
+    if argv.get(1).map(|s| s.as_str()) == Some("listcheck") {
+        // stand-alone list explorer (this is what runs under Miri)
+        std::process::exit(listcheck::main_standalone(&argv[2..]));
+    }
     // Run everything on a thread with the stack size of the CLI's main thread (8 MiB),
     // so that stack-depth verdicts match what a user of the binary would see.
     let stack: usize = std::env::var("NBSERVE_STACK_MB")
